@@ -69,16 +69,16 @@ DjMerge(lists) ==
 (* ---- _get_comp_cls_media ---------------------------------------------------- *)
 \* the class whose nested Media `curr_cls` uses (0: none / Media = None)
 MediaOwner(K, D, c) ==
-  IF c = 0 THEN 0
+  IF ~Real(K, c) THEN 0
   ELSE IF "inherit" \notin D THEN (IF K.cls[c].media = "def" THEN c ELSE 0)
   ELSE LET m == Mro(K, c).seq
-           idx == {i \in 1..Len(m) : m[i] # 0 /\ K.cls[m[i]].media # "none"} IN
+           idx == {i \in 1..Len(m) : Real(K, m[i]) /\ K.cls[m[i]].media # "none"} IN
        IF idx = {} THEN 0
        ELSE IF K.cls[m[Min(idx)]].media = "def" THEN m[Min(idx)] ELSE 0
 
 ImplBases(K, D, c) ==
   LET o == MediaOwner(K, D, c) IN
-  IF c = 0 THEN <<>>        \* (Generic, object: empty, nothing to merge)
+  IF ~Real(K, c) THEN <<>>  \* (Component, Generic, object: empty, nothing to merge)
   ELSE IF o = 0 THEN BasesOf(K, c)        \* curr_cls.__bases__, i.e. (Component,) = <<0>> when none is listed:
   ELSE CASE K.cls[o].ext = "true"  -> BasesOf(K, c)   \* merging the root adds nothing but does flatten
          [] K.cls[o].ext = "false" -> <<>>
@@ -125,7 +125,7 @@ ImplFill(K, D, st, c) ==
   IF c \in DOMAIN st.memo THEN st
   ELSE LET bs  == ImplBases(K, D, c)
            s1  == ImplFillSeq(K, D, st, bs)
-           res == IF "lazy" \in D THEN s1.resolved ELSE s1.resolved \cup {c}
+           res == IF "lazy" \in D \/ ~Real(K, c) \/ Plain(K, c) THEN s1.resolved ELSE s1.resolved \cup {c}
            val == [t \in Types |-> MergeBases(K, D, s1.memo, res, bs, t, <<OwnRef(K, D, c, t, res)>>)] IN
        [memo |-> s1.memo @@ (c :> val), resolved |-> res]
 
@@ -138,7 +138,7 @@ ImplAttrResolved(K, st, c, p) ==
   LET m == Mro(K, c).seq
       idx == {i \in 1..Len(m) : Kind(K, m[i], p) # "none"}
       upto == IF idx = {} THEN Len(m) ELSE Min(idx) IN
-  [st EXCEPT !.resolved = @ \cup {m[i] : i \in 1..upto}]
+  [st EXCEPT !.resolved = @ \cup {x \in {m[i] : i \in 1..upto} : Real(K, x) /\ ~Plain(K, x)}]   \* Components only
 
 ImplStep(K, D, st, c, a) == IF a = "media" THEN ImplFill(K, D, st, c) ELSE ImplAttrResolved(K, st, c, a)
 
